@@ -130,6 +130,8 @@ def run_for(prop, ctx, baseline_keys):
             want = e['expect'][prop]
             fired = sorted({r['rule'].split('.')[-1] for r in new if r.get('kind') == 'violation'})
             fired_any = sorted({r['rule'].split('.')[-1] for r in new})
-            ok = all(w in fired for w in want)
+            # hand-written mutants name the rule they break: all of them must fire.  Seeded changes were written against a property, not a rule: the
+            # recorded list is what fired when the matrix was last computed — at least one of those rules must still report it as a violation
+            ok = all(w in fired for w in want) if e['kind'] == 'mutant' else any(w in fired for w in want)
             ctx.check(rule, inst, ok, 'rules reporting a violation: %s (incl. incomplete: %s)' % (fired or 'none', fired_any or 'none'), 'rule(s) %s fire and name the broken instance' % want, e['patch'], key_extra='missed:%s' % ','.join(w for w in want if w not in fired))
     ctx.notes.append('E6: %d variants analysed for %s' % (n, prop))
